@@ -47,7 +47,16 @@ OUTER:
 			if m.waitDirtyIncomingCh != nil && // Merger is indeed asleep.
 				(m.stackDirtyMid != nil && len(m.stackDirtyMid.a) > 0) &&
 				(m.stackDirtyTop == nil || len(m.stackDirtyTop.a) <= 0) {
-				m.NotifyMerger("from-persister", false)
+				// Do not block here, as the collection lock is held: when
+				// the ping channel is full (the application or the idle
+				// waker notify faster than the merger drains) the merger
+				// needs this very lock to get to the point where it
+				// drains the channel.  A full channel also means the
+				// merger has wake-ups pending anyway.
+				select {
+				case m.pingMergerCh <- ping{kind: "from-persister"}:
+				default:
+				}
 			}
 
 			atomic.AddUint64(&m.stats.TotPersisterWaitBeg, 1)
